@@ -399,7 +399,10 @@ func runCheck(id, tier, repo, verif string, seed int, writeEv bool) int {
 		"A2: the Go stack does not overflow (recursion depth is not modelled)",
 		"heap well-formedness: every reference read from the heap or received as an argument is below the allocation watermark",
 		"string equality between two non-literal strings is not extensional in the SMT encoding (a spurious model is reported as undecided, never as proof)",
-		"floats are an uninterpreted sort: only which operation is applied to which operand is decided")
+		"floats are an uninterpreted sort: only which operation is applied to which operand is decided",
+		"sizes: a slice of non-empty elements and a string are at most 2^48 long (the runtime's maxAlloc); allocations of at most the declared //@ allocbound succeed",
+		"UTF-8 decoding in a range over a string: a byte below 0x80 is its own rune of width 1, any other byte starts a rune >= 0x80 of width 1..4 that ends inside the string",
+		"site-keyed clauses (call f#k, return k, loop k) are matched by ordinal in source order; a clause whose site is gone is reported as contract-applies")
 	for k, n := range res.Stdlib {
 		assumptions = append(assumptions, fmt.Sprintf("stdlib contract assumed: %s [%d uses]", k, n))
 	}
